@@ -144,8 +144,6 @@ def run(c, a):
         "the fast Euclid-based Lcm used by LcmMapObs is checked against the definition (IsGcd/IsLcm) on the fn record of "
         "every pair of the trace",
     ]
-    for f in load_proposed("C07"):
-        c.findings.append(f)
     # ---- 1. design
     cfg = "lcm48.cfg" if thorough else "lcm16.cfg"
     r = c.tlc("LcmMap", "LcmMap", cfg, workers=12, timeout=1500 if thorough else 240, name="design")
